@@ -23027,6 +23027,73 @@ pub mod verif_hooks {
 		};
 		part.check_onchain_timeout(height)
 	}
+	/// Feeds the parts of one multi-part payment (cltv_expiry, value_msat), in this order, through the real
+	/// `ChannelManager::handle_claimable_htlc`; returns what the `PaymentClaimable` event generated when the
+	/// last part completes the payment says: (amount_msat, claim_deadline). None if no event was generated.
+	pub fn claim_deadline_probe<
+		M: chain::Watch<SP::EcdsaSigner>,
+		T: BroadcasterInterface,
+		ES: EntropySource,
+		NS: NodeSigner,
+		SP: SignerProvider,
+		F: FeeEstimator,
+		R: Router,
+		MR: MessageRouter,
+		L: Logger,
+	>(
+		cm: &ChannelManager<M, T, ES, NS, SP, F, R, MR, L>, parts: &[(u32, u64)],
+	) -> Option<(u64, Option<u32>)> {
+		let total: u64 = parts.iter().map(|p| p.1).sum();
+		let secret = PaymentSecret([8; 32]);
+		let payment_hash = PaymentHash([77; 32]);
+		let mut new_events = VecDeque::new();
+		for (i, (cltv_expiry, value)) in parts.iter().enumerate() {
+			let htlc = ClaimableHTLC {
+				mpp_part: MppPart {
+					prev_hop: HTLCPreviousHopData {
+						prev_outbound_scid_alias: 42,
+						user_channel_id: Some(7),
+						amount_msat: None,
+						htlc_id: i as u64,
+						incoming_packet_shared_secret: [5; 32],
+						phantom_shared_secret: None,
+						trampoline_shared_secret: None,
+						blinded_failure: None,
+						channel_id: ChannelId([9; 32]),
+						outpoint: OutPoint { txid: bitcoin::Txid::all_zeros(), index: 1 },
+						counterparty_node_id: None,
+						cltv_expiry: Some(*cltv_expiry),
+					},
+					cltv_expiry: *cltv_expiry,
+					value: *value,
+					sender_intended_value: *value,
+					timer_ticks: 0,
+					total_value_received: None,
+				},
+				onion_payload: OnionPayload::Invoice { _legacy_hop_data: None },
+				counterparty_skimmed_fee_msat: None,
+			};
+			let purpose = events::PaymentPurpose::Bolt11InvoicePayment {
+				payment_preimage: None,
+				payment_secret: secret,
+			};
+			let _ = cm.handle_claimable_htlc(
+				purpose,
+				htlc,
+				RecipientOnionFields::secret_only(secret, total),
+				payment_hash,
+				cm.get_our_node_id(),
+				&mut new_events,
+			);
+		}
+		new_events.into_iter().find_map(|(ev, _)| match ev {
+			events::Event::PaymentClaimable { amount_msat, claim_deadline, .. } => {
+				Some((amount_msat, claim_deadline))
+			},
+			_ => None,
+		})
+	}
+
 	/// Serialises (`write_claimable_htlc`) and reads back (`<(ClaimableHTLC, u64) as Readable>::read`)
 	/// a claimable HTLC with the given integer fields; returns what came back:
 	/// (value, sender_intended_value, total_msat, total_value_received, cltv_expiry,
